@@ -20,6 +20,8 @@ enum Fault {
     Close,
     Nack,
     Stall,
+    /// the item is sent N pauses later than the terminal's pace would have it (`late:N`; no delay at all with gap = 0)
+    Late(u64),
     Garbage(Vec<u8>),
 }
 
@@ -141,6 +143,10 @@ async fn serve(mut s: DuplexStream, k: usize, sh: Arc<Mutex<Shared>>) {
                 (g.script.faults.get(&(k, sent)).cloned(), g.script.gap)
             };
             sent += 1;
+            let gap = match fault {
+                Some(Fault::Late(n)) => gap * (1 + n),
+                _ => gap,
+            };
             if gap > 0 {
                 // the pause before the item; a client that hangs up meanwhile is noticed at once (the log
                 // carries the moment the client closed, not the terminal's pace)
@@ -164,7 +170,7 @@ async fn serve(mut s: DuplexStream, k: usize, sh: Arc<Mutex<Shared>>) {
                 }
             }
             match fault {
-                None => {
+                None | Some(Fault::Late(_)) => {
                     let _ = s.write_all(&item).await;
                 }
                 Some(Fault::Nack) => {
@@ -217,6 +223,7 @@ fn parse_script(s: &str) -> Option<Script> {
                 "close" => Fault::Close,
                 "nack" => Fault::Nack,
                 "stall" => Fault::Stall,
+                x if x.starts_with("late:") => Fault::Late(x[5..].parse().ok()?),
                 g => Fault::Garbage(hex_dec(g.strip_prefix("garbage:")?)?),
             };
             sc.faults.insert((k.parse().ok()?, j.parse().ok()?), f);
